@@ -55,6 +55,18 @@ def worker(unit, emit):
             for table in (special, special2):
                 if c in table:
                     rec(base[:i] + table[c] + base[i + 1:], 'case-special U+%04X@%d' % (ord(table[c]), i))
+    # characters that case folding / upper() turns into ASCII letters (what re.IGNORECASE, str.upper() before a table lookup or
+    # casefold() let through) at EVERY letter position of the bases, and ligatures for the letter pairs they expand to
+    fold = ['\u212a', '\u0131', '\u017f', '\u0130', '\u212b']
+    ligs = {'FI': '\ufb01', 'FL': '\ufb02', 'SS': '\xdf', 'ST': '\ufb06', 'FF': '\ufb00'}
+    for base in bases:
+        for i, c in enumerate(base):
+            if c.isalpha() and c.isascii():
+                for ch in fold:
+                    rec(base[:i] + ch + base[i + 1:], 'folding U+%04X@%d' % (ord(ch), i))
+            pair = base[i:i + 2].upper()
+            if pair in ligs:
+                rec(base[:i] + ligs[pair] + base[i + 2:], 'ligature U+%04X@%d' % (ord(ligs[pair]), i))
     for base in bases:
         rec(base, 'base')
         for script in scripts1:
